@@ -31,9 +31,6 @@ package pebble
 //@   ensures forall q string :: old(world.syncedPath[q]) ==> world.syncedPath[q]
 //@   dead return 1      // the windows branch: GOOS is a constant of the build
 //@   modifies fs.dHas, fs.dCur, world.syncedPath
-//@ func syncDir$1
-//@   requires *df != nil
-//@   modifies nothing
 
 // CreateNodeDataDir: the directory exists and its entry in the parent directory is durable
 //@ func CreateNodeDataDir
@@ -64,17 +61,6 @@ package pebble
 //@   ensures fs.dCur[dir] == old(fs.dCur[dir]) || fs.dCur[dir] == fs.vCur[dir]
 //@   ensures forall q string :: old(world.syncedPath[q]) ==> world.syncedPath[q]
 //@   modifies fs.updName, fs.vHas, fs.dHas, fs.dCur, world.syncedPath
-// the deferred close + directory sync
-//@ func SaveCurrentDBDirName$1
-//@   requires *f != nil && *fs != nil
-//@   ensures (*fs).vHas[*dir] && isDirP(*fs, *dir) ==> (forall p string :: parentOf(p) == *dir ==> (*fs).dHas[p] == (*fs).vHas[p]) && (*fs).dCur[*dir] == (*fs).vCur[*dir]
-//@   ensures forall p string :: parentOf(p) != *dir ==> (*fs).dHas[p] == old((*fs).dHas[p])
-//@   ensures forall p string :: (*fs).dHas[p] == (*fs).vHas[p] || (*fs).dHas[p] == old((*fs).dHas[p])
-//@   ensures forall d string :: d != *dir ==> (*fs).dCur[d] == old((*fs).dCur[d])
-//@   ensures (*fs).dCur[*dir] == (*fs).vCur[*dir] || (*fs).dCur[*dir] == old((*fs).dCur[*dir])
-//@   ensures forall q string :: old(world.syncedPath[q]) ==> world.syncedPath[q]
-//@   modifies (*fs).dHas, (*fs).dCur, world.syncedPath
-
 // ReplaceCurrentDBFile: the durable switch. The directory the new name points to must already be
 // durable - otherwise a crash after the switch leaves `current` naming a directory that does not
 // exist, and the table can never be opened again.
